@@ -41,56 +41,100 @@ theorem fsum_split_ordered (A : AggType) (p : Nat) (f g : Nat → Option Int) :
       rw [hF, hR]
       simp [ocomb_assoc]
 
-/-- the compress buffer holds only slots at or before the window start. -/
-def SortedB (b : Buf) : Prop := ∀ s, oldValue b.compress s ≠ none → s ≤ b.start
+/-- the compress buffer holds only slots before the window start (and nothing before the first
+write): no slot lives in the compress buffer and in the window. -/
+def SortedB (b : Buf) : Prop :=
+  (b.hasData = false → b.compress = none) ∧ ∀ s, oldValue b.compress s ≠ none → s < b.start
 
 theorem sortedB_fresh (w : Nat) : SortedB (Buf.fresh w) := by
+  refine ⟨fun _ => rfl, ?_⟩
   intro s h
   simp [Buf.fresh, oldValue] at h
 
+/-- the last marked slot of the window is visible. -/
+theorem memView_end_ne_none {w : Nat} (A : AggType) (b : Buf) (hi : BufInv w b) (hd : b.hasData = true) :
+    memView A b (b.start + b.endd) ≠ none := by
+  have hc : curValue b (b.start + b.endd) ≠ none := by
+    have : ¬ (b.start + b.endd < b.start ∨ b.start + b.endd > b.start + b.endd) := by omega
+    simp only [curValue, this, if_false]
+    have : b.start + b.endd - b.start = b.endd := by omega
+    rw [this]
+    exact hi.endMarked hd
+  simp only [memView, hd, if_true]
+  cases ho : oldValue b.compress (b.start + b.endd) <;> cases hcv : curValue b (b.start + b.endd) <;> simp_all [ocomb]
+
 /-- a write at or after every slot the page holds keeps the compress buffer before the window. -/
-theorem write_sorted (w : Nat) (A : AggType) (b : Buf) (hs : SortedB b) (slot : Nat) (v : Int)
+theorem write_sorted (w : Nat) (A : AggType) (b : Buf) (hi : BufInv w b) (hs : SortedB b) (slot : Nat) (v : Int)
     (hle : ∀ t, memView A b t ≠ none → t ≤ slot) : SortedB (write w A b slot v) := by
   unfold write writeG
   by_cases hd : b.hasData = false
   · simp only [hd, Bool.not_false, if_true]
+    refine ⟨fun h => by simp [writeFirst] at h, ?_⟩
     intro s h
     have hc : (writeFirst b slot v).compress = b.compress := rfl
-    rw [hc] at h
-    have : memView A b s ≠ none := by
-      simp only [memView, hd, Bool.false_eq_true, if_false]
-      cases ho : oldValue b.compress s with
-      | none => exact absurd ho h
-      | some x => simp [ocomb]
-    exact hle s this
+    rw [hc, hs.1 hd] at h
+    simp [oldValue] at h
   · have hd' : b.hasData = true := by cases h : b.hasData <;> simp_all
     simp only [hd', Bool.not_true, Bool.false_eq_true, if_false]
     by_cases hout : slot < b.start ∨ slot > b.start + w - 1
     · simp only [hout, if_true]
+      refine ⟨fun h => by simp [writeFirst] at h, ?_⟩
       intro s h
       have hc : (writeFirst (compact A b) slot v).compress = (compact A b).compress := rfl
+      have hst : (writeFirst (compact A b) slot v).start = slot := rfl
       rw [hc, oldValue_compact, mergeCell_eq] at h
-      have : memView A b s ≠ none := by
-        simpa [memView, hd'] using h
-      exact hle s this
+      rw [hst]
+      -- the write left the window to the right: the end of the window is held, hence ≤ slot
+      have hend := hle _ (memView_end_ne_none A b hi hd')
+      have hew := hi.endLt hd'
+      have hright : slot > b.start + w - 1 := by
+        rcases hout with h1 | h1
+        · omega
+        · exact h1
+      -- s is held by the compress buffer (before the window) or by the window
+      cases ho : oldValue b.compress s with
+      | some x =>
+        have := hs.2 s (by simp [ho])
+        omega
+      | none =>
+        rw [ho] at h
+        simp only [ocomb_none_left] at h
+        have hcur : ¬ (s < b.start ∨ s > b.start + b.endd) := by
+          intro hh
+          exact h (curValue_none_of_out b s hh)
+        omega
     · simp only [hout, if_false]
-      intro s h
-      have hc : ∀ (b' : Buf), b'.compress = b.compress → b'.start = b.start →
-          (oldValue b'.compress s ≠ none → s ≤ b'.start) := by
+      have hc : ∀ (b' : Buf), b'.compress = b.compress → b'.start = b.start → b'.hasData = true → SortedB b' := by
         intro b' h1 h2 h3
-        rw [h1] at h3
+        refine ⟨fun h => ?_, ?_⟩
+        · rw [h3] at h; exact absurd h (by simp)
+        intro s h4
+        rw [h1] at h4
         rw [h2]
-        exact hs s h3
-      split at h <;> exact hc _ rfl rfl h
+        exact hs.2 s h4
+      split <;> exact hc _ rfl rfl (by simpa using hd')
+
+/-- in a sorted page a slot is held by the compress buffer or by the window, never by both: the
+view under the field's aggregate is the combination under ANY aggregate. -/
+theorem memView_any_of_sorted {w : Nat} (F A : AggType) (b : Buf) (hi : BufInv w b) (hs : SortedB b) (s : Nat) :
+    memView A b s = ocomb F (oldValue b.compress s) (if b.hasData then curValue b s else none) := by
+  unfold memView
+  cases ho : oldValue b.compress s with
+  | none => simp
+  | some x =>
+    have hlt := hs.2 s (by simp [ho])
+    have : curValue b s = none := curValue_none_of_out b s (Or.inl hlt)
+    cases b.hasData <;> simp [this, ocomb]
 
 /-- **the memory query of one page in time order**: with the compress buffer before the window
-(`SortedB`) the two calls reduce, for ANY aggregate, to the slot-ascending fold of the page's view. -/
-theorem pageCalls_spec_sorted {w : Nat} (A : AggType) (L : List AggType) (hL : L.Nodup) (hAL : A ∈ L)
+(`SortedB`) the two calls reduce, for ANY function aggregate `F` (the field's own or not,
+commutative or not), to the slot-ascending `F`-fold of the page's view under the field's aggregate. -/
+theorem pageCalls_spec_sorted {w : Nat} (F A : AggType) (L : List AggType) (hL : L.Nodup) (hAL : F ∈ L)
     (b : Buf) (hi' : BufInv w b) (hs : SortedB b) (lo hi tLo tHi g0 qs ratio t : Nat) :
-    arrGet ((pageCalls L b lo hi tLo tHi g0 qs ratio).foldl reduceInto (Arrays.init L)) A t =
-      fsum A (slotsOf lo hi)
+    arrGet ((pageCalls L b lo hi tLo tHi g0 qs ratio).foldl reduceInto (Arrays.init L)) F t =
+      fsum F (slotsOf lo hi)
         (fun s => if tLo ≤ s ∧ s ≤ tHi ∧ (g0 + s - qs) / ratio = t then memView A b s else none) := by
-  rw [reduce_spec L hL A hAL _ (pageCalls_wf L hL b lo hi tLo tHi g0 qs ratio) t]
+  rw [reduce_spec L hL F hAL _ (pageCalls_wf L hL b lo hi tLo tHi g0 qs ratio) t]
   have hcur : ∀ s, (if b.hasData then curValue b s else none) = curValue b s := by
     intro s
     cases hd : b.hasData with
@@ -102,7 +146,7 @@ theorem pageCalls_spec_sorted {w : Nat} (A : AggType) (L : List AggType) (hL : L
     simp only [List.nil_append]
     rw [fsum_cons]
     simp only [fsum, List.foldl_nil, ocomb_none_right]
-    rw [dsCall_spec L hL A hAL]
+    rw [dsCall_spec L hL F hAL]
     apply fsum_congr
     intro s _
     simp [memView, hcomp, oldValue, hcur]
@@ -110,8 +154,8 @@ theorem pageCalls_spec_sorted {w : Nat} (A : AggType) (L : List AggType) (hL : L
     simp only [List.singleton_append]
     rw [fsum_cons, fsum_cons]
     simp only [fsum, List.foldl_nil, ocomb_none_right]
-    rw [dsCall_spec L hL A hAL, dsCall_spec L hL A hAL, ← hcomp]
-    have := fsum_split_ordered A b.start
+    rw [dsCall_spec L hL F hAL, dsCall_spec L hL F hAL, ← hcomp]
+    have := fsum_split_ordered F b.start
       (fun s => if tLo ≤ s ∧ s ≤ tHi ∧ (g0 + s - qs) / ratio = t then oldValue b.compress s else none)
       (fun s => if tLo ≤ s ∧ s ≤ tHi ∧ (g0 + s - qs) / ratio = t then
           (if b.hasData then curValue b s else none) else none)
@@ -123,7 +167,7 @@ theorem pageCalls_spec_sorted {w : Nat} (A : AggType) (L : List AggType) (hL : L
           cases ho : oldValue b.compress s with
           | none => rfl
           | some x =>
-            have := hs s (by simp [ho])
+            have := hs.2 s (by simp [ho])
             omega
         · simp [hcond])
       (by
@@ -137,7 +181,8 @@ theorem pageCalls_spec_sorted {w : Nat} (A : AggType) (L : List AggType) (hL : L
     apply fsum_congr
     intro s _
     by_cases hcond : tLo ≤ s ∧ s ≤ tHi ∧ (g0 + s - qs) / ratio = t
-    · simp [hcond, memView]
+    · simp only [hcond, and_self, if_true]
+      exact (memView_any_of_sorted F A b hi' hs s).symm
     · simp [hcond]
 
 theorem refSlots_ne_none_mem (A : AggType) (ws : List (Nat × Int)) (t : Nat) (h : refSlots A ws t ≠ none) :
@@ -166,7 +211,7 @@ theorem runWrites_sorted (w : Nat) (hw : 0 < w) (A : AggType) :
     have hpre := run_refines w A pre (Buf.fresh w) (BufInv.fresh hw)
     have hs' : SortedB (runWrites w A (Buf.fresh w) (pre ++ [x])) := by
       rw [hstep]
-      apply write_sorted w A _ hs
+      apply write_sorted w A _ hpre.1 hs
       intro t ht
       rw [hpre.2 t] at ht
       simp only [memView_fresh, ocomb_none_left] at ht
@@ -177,11 +222,11 @@ theorem runWrites_sorted (w : Nat) (hw : 0 < w) (A : AggType) :
     have := ih (pre ++ [x]) (by simpa [List.append_assoc] using hp) hs'
     simpa [List.append_assoc] using this
 
-theorem pageFold_sorted {w : Nat} (A : AggType) (L : List AggType) (hL : L.Nodup) (hAL : A ∈ L)
-    (b : Buf) (hi' : BufInv w b) (hs : SortedB b) : PageFold A L b := by
+theorem pageFold_sorted {w : Nat} (F A : AggType) (L : List AggType) (hL : L.Nodup) (hAL : F ∈ L)
+    (b : Buf) (hi' : BufInv w b) (hs : SortedB b) : PageFold F A L b := by
   intro lo hi tLo tHi g0 qs ratio t
-  rw [← reduce_spec L hL A hAL _ (pageCalls_wf L hL b lo hi tLo tHi g0 qs ratio) t]
-  exact pageCalls_spec_sorted A L hL hAL b hi' hs lo hi tLo tHi g0 qs ratio t
+  rw [← reduce_spec L hL F hAL _ (pageCalls_wf L hL b lo hi tLo tHi g0 qs ratio) t]
+  exact pageCalls_spec_sorted F A L hL hAL b hi' hs lo hi tLo tHi g0 qs ratio t
 
 /-! ### the shard: write order = time order inside one source -/
 
@@ -200,7 +245,7 @@ def sortedOps : Shard → List Op → Prop
 def PagesSorted (s : Shard) : Prop :=
   ∀ fam md, (s.family fam).mutable_ = some md → ∀ k b, Map.lookup md.pages k = some b → SortedB b
 
-theorem pagesSorted_write (s : Shard) (hcfg : s.cfg = Cfg.fixed) (hp : PagesSorted s)
+theorem pagesSorted_write (s : Shard) (pts : List Point) (hinv : Inv s pts) (hp : PagesSorted s)
     (tick fam ser fld : Nat) (ft : FieldType) (slot : Nat) (v : Int)
     (hso : sortedOp s (.write tick fam ser fld ft slot v)) :
     PagesSorted (s.write tick fam ser fld ft slot v) := by
@@ -216,9 +261,10 @@ theorem pagesSorted_write (s : Shard) (hcfg : s.cfg = Cfg.fixed) (hp : PagesSort
       rw [Map.lookup_upsert_self] at hk
       injection hk with hk
       subst hk
-      have hw : MemDB.writeV s.cfg = write := by rw [hcfg]; exact writeV_fixed Cfg.fixed rfl rfl
+      have hw : MemDB.writeV s.cfg = write := by rw [hinv.cfgFixed]; exact writeV_fixed Cfg.fixed rfl rfl
       rw [hw]
       apply write_sorted
+      · exact curPage_ok s pts hinv tick fam ser fld
       · -- the page before the write
         unfold curPage
         cases hl : Map.lookup (curMem s tick fam).pages (ser, fld) with
@@ -273,10 +319,10 @@ theorem pagesSorted_compact (s : Shard) (hp : PagesSorted s) (fam : Nat) : Pages
       · rw [family_upsert_ne s fam fam2 _ _ _ _ _ hf] at hm
         exact hp fam2 md2 hm k b hk
 
-theorem pagesSorted_applyOp (s : Shard) (hcfg : s.cfg = Cfg.fixed) (hp : PagesSorted s) (op : Op)
+theorem pagesSorted_applyOp (s : Shard) (pts : List Point) (hinv : Inv s pts) (hp : PagesSorted s) (op : Op)
     (hso : sortedOp s op) : PagesSorted (applyOp s op) := by
   cases op with
-  | write tick fam ser fld ft slot v => exact pagesSorted_write s hcfg hp tick fam ser fld ft slot v hso
+  | write tick fam ser fld ft slot v => exact pagesSorted_write s pts hinv hp tick fam ser fld ft slot v hso
   | flush fam => exact pagesSorted_flush s hp fam
   | compact fam => exact pagesSorted_compact s hp fam
   | reopen =>
@@ -294,7 +340,7 @@ theorem pagesSorted_runOps : ∀ (ops : List Op) (s : Shard) (pts : List Point),
     simp only [goodOps, Bool.and_eq_true] at hg
     simp only [runOps, List.foldl_cons]
     exact ih (applyOp s op) _ (inv_applyOp s pts hinv op hg.1) hg.2
-      (pagesSorted_applyOp s hinv.cfgFixed hp op hso.1) hso.2
+      (pagesSorted_applyOp s pts hinv hp op hso.1) hso.2
 
 theorem pagesSorted_init (w : Nat) (sch : List (Nat × FieldType)) :
     PagesSorted { Shard.init w with fieldTypes := sch } := by
@@ -337,9 +383,9 @@ theorem familyCalls_fsum_one_source (s : Shard) (pts : List Point) (hinv : Inv s
     fsum (s.fieldAgg q.field) (familyCalls s q sc L fam group)
         (fun c => arrGet c (s.fieldAgg q.field) t) =
       famBucket (s.fieldAgg q.field) q fam t group (fun ser slot => storeView s fam ser q.field slot) := by
-  rw [familyCalls_fsum_raw s pts hinv h2 q hL hAL sc hspf fam group hsc t
-    (fun md hm => memCalls_fsum_gen s pts hinv q hspf fam md hm
-      (fun ser b hp hbi => pageFold_sorted _ L hL hAL b hbi (hps fam md hm _ b hp)) group t)]
+  rw [familyCalls_fsum_raw s pts hinv h2 q _ hL hAL sc hspf fam group hsc t
+    (fun md hm => memCalls_fsum_gen s pts hinv q _ hspf fam md hm
+      (fun ser b hp hbi => pageFold_sorted _ _ L hL hAL b hbi (hps fam md hm _ b hp)) group t)]
   rcases hone with hr | ⟨hmn, blk, hr⟩
   · rw [hr, fsum_nil, ocomb_none_right]
     apply famBucket_congr
